@@ -1018,4 +1018,92 @@ theorem site_spec (m : Method) (env : Env) (e : SExpr) (hs : sexprOkB m e = true
   | frag kids =>
     simpa [evalSite, expectedSite] using bkids_spec m env he kids (by simpa [sexprOkB] using hs)
 
+/-! ### template bodies -/
+
+theorem itemsOf_ok (v : Val) (h : valOkB v = true) : ∀ x ∈ itemsOf v, scalarOkB x = true := by
+  cases v with
+  | one x => intro y hy; simp [itemsOf] at hy
+  | many xs => intro y hy; exact (List.all_eq_true.mp h) y hy
+
+theorem flatMap_spec (m : Method) (xs : List Scalar) (f g : Scalar → List Ev)
+    (h : ∀ x ∈ xs, StreamOk m (f x) ∧ TEq (f x) (g x)) :
+    StreamOk m (xs.flatMap f) ∧ TEq (xs.flatMap f) (xs.flatMap g) := by
+  induction xs with
+  | nil => exact ⟨StreamOk.nil m, TEq.refl _⟩
+  | cons x xs ih =>
+    obtain ⟨h1, h2⟩ := h x (by simp)
+    obtain ⟨i1, i2⟩ := ih fun y hy => h y (List.mem_cons_of_mem _ hy)
+    simp only [List.flatMap_cons]
+    exact ⟨StreamOk.append h1 i1, TEq.append h2 i2⟩
+
+mutual
+  theorem node_spec (m : Method) : ∀ (n : Node) (env : Env), nodeOkB m n = true → nodeOk env n = true →
+      EnvOk env → StreamOk m (renderNode env n) ∧ TEq (renderNode env n) (expectedNode env n)
+    | .lit s, env, _, _, _ => by
+        simpa [renderNode, expectedNode] using
+          (⟨StreamOk.text m s false (by simp), TEq.refl _⟩ :
+            StreamOk m [.text s false] ∧ TEq [.text s false] [.text s false])
+    | .site e, env, hs, hd, he => by
+        simpa [renderNode, expectedNode] using site_spec m env e (by simpa [nodeOkB] using hs)
+          (by simpa [nodeOk] using hd) he
+    | .el t attrs pa kids, env, hs, hd, he => by
+        simp only [nodeOkB, Bool.and_eq_true] at hs
+        obtain ⟨⟨⟨⟨ht, ha⟩, hpa⟩, hvoid⟩, hk⟩ := hs
+        obtain ⟨k1, k2⟩ := list_spec m kids env hk (by simpa [nodeOk] using hd) he
+        have hattrs : ∀ p ∈ attrs, attrNameOkB m p.1 = true := by
+          intro p hp
+          have := (List.all_eq_true.mp ha) p hp
+          simp only [Bool.and_eq_true] at this
+          exact this.1
+        have hv : openOk m t = true ∨ renderList env kids = [] := by
+          simp only [Bool.or_eq_true] at hvoid
+          rcases hvoid with h | h
+          · exact Or.inl h
+          · right
+            have : kids = [] := by simpa using h
+            subst this; simp [renderList]
+        cases pa with
+        | none =>
+          simp only [renderNode, expectedNode]
+          exact ⟨StreamOk.wrap t _ ht (evalAttrs_ok m env attrs hattrs) hv k1, TEq.wrap t _ k2⟩
+        | some items =>
+          simp only [renderNode, expectedNode]
+          have hnames := applyPyAttrs_names m env attrs items hattrs (by
+            intro p hp
+            have := (List.all_eq_true.mp hpa) p hp
+            simp only [Bool.and_eq_true] at this
+            exact this.1)
+          exact ⟨StreamOk.wrap t _ ht (evalAttrs_ok m env _ hnames) hv k1, TEq.wrap t _ k2⟩
+    | .loop e kids, env, hs, hd, he => by
+        simp only [nodeOkB, Bool.and_eq_true] at hs
+        have hv := evalV_ok env e hs.1 he
+        have hx := itemsOf_ok _ hv
+        simp only [nodeOk, List.all_eq_true] at hd
+        simp only [renderNode, expectedNode]
+        apply flatMap_spec
+        intro x hxm
+        exact list_spec m kids (x :: env) hs.2 (hd x hxm) (EnvOk.cons (hx x hxm) he)
+    | .bind a kids, env, hs, hd, he => by
+        simp only [nodeOkB, Bool.and_eq_true] at hs
+        simpa [renderNode, expectedNode] using
+          list_spec m kids (evalAtom env a :: env) hs.2 (by simpa [nodeOk] using hd)
+            (EnvOk.cons (evalAtom_ok env a hs.1 he) he)
+    | .cond b kids, env, hs, hd, he => by
+        cases b with
+        | false => exact ⟨by simpa [renderNode] using StreamOk.nil m, by simpa [renderNode, expectedNode] using TEq.refl []⟩
+        | true =>
+          simpa [renderNode, expectedNode] using
+            list_spec m kids env (by simpa [nodeOkB] using hs) (by simpa [nodeOk] using hd) he
+  theorem list_spec (m : Method) : ∀ (ns : List Node) (env : Env), nodesOkB m ns = true → listOk env ns = true →
+      EnvOk env → StreamOk m (renderList env ns) ∧ TEq (renderList env ns) (expectedList env ns)
+    | [], _, _, _, _ => by simpa [renderList, expectedList] using (⟨StreamOk.nil m, TEq.refl _⟩ : StreamOk m [] ∧ TEq [] [])
+    | n :: ns, env, hs, hd, he => by
+        simp only [nodesOkB, Bool.and_eq_true] at hs
+        simp only [listOk, Bool.and_eq_true] at hd
+        obtain ⟨h1, h2⟩ := node_spec m n env hs.1 hd.1 he
+        obtain ⟨i1, i2⟩ := list_spec m ns env hs.2 hd.2 he
+        simp only [renderList, expectedList]
+        exact ⟨StreamOk.append h1 i1, TEq.append h2 i2⟩
+end
+
 end Genshi.Subst
